@@ -46,7 +46,8 @@ def rulesStr (l : List MRule) : String := ",".intercalate (l.map MRule.toStr)
 
 /-- flow / isolation thresholds encoded in the keys (`t5` → 5, `c2` → 2, `w9` → cold rate 3) -/
 def limitOfKey (k : String) : Nat :=
-  if k == "w9" then 3 else ((k.drop 1).toString.toNat?).getD 0
+  -- the digits after the family letter (`p5o`: 5 per its own window); keys with a letter suffix are variants of the same threshold
+  if k == "w9" then 3 else ((String.ofList ((k.drop 1).toString.toList.takeWhile Char.isDigit)).toNat?).getD 0
 
 def stepCase (st : St) (v : Verdict) (i : Nat) (opText obs : String) : St × Verdict :=
   let op := Op.parse opText
